@@ -155,8 +155,14 @@ def o6(tier):
     return _shared(lambda: C10.o3(tier), 'O6', 'shared with C10-O3: on SQLite the rollback invalidation flags exactly the processed-message records (and messages) it selects, so the dedup gate keeps refusing them')
 
 
+def o7(tier):
+    """re-saving a stored message (the echo of an own message, a re-delivery) must not evict or alter any other stored message"""
+    from props import memobs
+    return memobs.save_message_upsert(tier, 'O7', 'O7')
+
+
 def run(tier, seed, only=None):
-    obs = [('O1', o1), ('O2', o2), ('O3', o3), ('O4', o4), ('O5', o5), ('O6', o6)]
+    obs = [('O1', o1), ('O2', o2), ('O3', o3), ('O4', o4), ('O5', o5), ('O6', o6), ('O7', o7)]
     out = []
     for k, f in obs:
         if only and k not in only:
